@@ -188,7 +188,9 @@ fn bits_history<T: bitvec::store::BitStore + parity_scale_codec::Encode + crate:
 			for b in s.iter().by_vals() {
 				bits.push(if b { '1' } else { '0' });
 			}
-			ctx.emit("hist-bits", name, &format!("enc bits {} {} {}", T::NAME, O::NAME, bits), &ans);
+			if O::NAME != "custom" {
+				ctx.emit("hist-bits", name, &format!("enc bits {} {} {}", T::NAME, O::NAME, bits), &ans);
+			}
 			// oracle (C06): the offset inside the backing words is invisible
 			let fresh: BitVec<T, O> = s.iter().by_vals().collect();
 			if bytes.as_deref() != Some(&fresh.encode()[..]) {
@@ -297,7 +299,7 @@ fn bits_head_history<T: bitvec::store::BitStore + parity_scale_codec::Encode + c
 				("(BitVec,)", (owned.clone(),).encode()),
 			];
 			for (label, bytes) in forms {
-				if label == "BitVec::from_bitslice" && (!long || start == 1) {
+				if label == "BitVec::from_bitslice" && (!long || start == 1) && O::NAME != "custom" {
 					ctx.emit("hist-bits", "BitVec(head offset)", &format!("enc bits {} {} {}", T::NAME, O::NAME, bits), &hex_or_dash(&bytes));
 				}
 				if bytes != expect {
@@ -312,6 +314,28 @@ fn bits_head_history<T: bitvec::store::BitStore + parity_scale_codec::Encode + c
 			}
 		}
 	}
+}
+
+/// A user-defined bit order (the crate's impls are generic over `O: BitOrder`): positions 1 and 2
+/// of every register swapped, all others as in `Lsb0`. No model descriptor - the offset / history
+/// oracles apply to it as to the built-in orders.
+#[cfg(feature = "bitvec-f")]
+pub struct SwapOrder;
+#[cfg(feature = "bitvec-f")]
+unsafe impl bitvec::order::BitOrder for SwapOrder {
+	fn at<R: bitvec::mem::BitRegister>(index: bitvec::index::BitIdx<R>) -> bitvec::index::BitPos<R> {
+		let i = index.into_inner();
+		let j = match i {
+			1 => 2,
+			2 => 1,
+			x => x,
+		};
+		bitvec::index::BitPos::new(j).unwrap()
+	}
+}
+#[cfg(feature = "bitvec-f")]
+impl crate::modeled::OrderName for SwapOrder {
+	const NAME: &'static str = "custom";
 }
 
 fn holder_history(ctx: &mut Ctx, rng: &mut Rng) {
@@ -385,6 +409,11 @@ pub fn hist_stream(ctx: &mut Ctx) {
 			bits_history::<u64, Lsb0>(ctx, &mut rng);
 			bits_history::<u64, Msb0>(ctx, &mut rng);
 		}
+		bits_history::<u8, SwapOrder>(ctx, &mut rng);
+		bits_history::<u16, SwapOrder>(ctx, &mut rng);
+		bits_history::<u64, SwapOrder>(ctx, &mut rng);
+		bits_head_history::<u8, SwapOrder>(ctx, &mut rng, false);
+		bits_head_history::<u32, SwapOrder>(ctx, &mut rng, false);
 		bits_head_history::<u8, Lsb0>(ctx, &mut rng, false);
 		bits_head_history::<u8, Msb0>(ctx, &mut rng, false);
 		bits_head_history::<u16, Msb0>(ctx, &mut rng, false);
